@@ -2,6 +2,7 @@ import RscelModel.Driver.Wire
 import RscelModel.Model.Conv
 import RscelModel.Model.WF
 import RscelModel.Model.Json
+import RscelModel.Driver.Hist
 import RscelModel.Driver.AstJson
 open Rscel
 
@@ -62,6 +63,10 @@ def handle (line : String) : String :=
         match env.getProg name with
         | none => pure "e:binding L:0"
         | some code => pure (Wire.showOut (execProg (stdBuiltins 0) env code))) with
+      | some r => r
+      | none => "bad-request"
+    else if cmd == "hist" then
+      match Wire.handleHist args with
       | some r => r
       | none => "bad-request"
     else if cmd == "json" then
